@@ -19,6 +19,19 @@ Proof.
   rewrite grant_tokens_pkce. congruence.
 Qed.
 
+Lemma authorize_core_pkce_old cfg s cl a k :
+  k < next_key s -> pkce (st (fst (authorize_core cfg s cl a))) k = pkce (st s) k.
+Proof.
+  intros Hk. unfold authorize_core.
+  destruct (negb (scopes_ok cfg cl (az_scopes a))); [reflexivity|].
+  destruct (negb (aud_ok cfg (cl_aud cl) (az_aud a))); [reflexivity|].
+  destruct (fresh_rid s) as [rid s1] eqn:E1. destruct (fresh_rid_spec _ _ _ E1) as [_ [_ [Hst1 [_ [Hk1 _]]]]].
+  destruct (mint s1 KCode rid) as [k0 s2] eqn:E2. destruct (mint_spec _ _ _ _ _ E2) as [Hk0 [_ [Hst2 _]]].
+  destruct (pkce_validate cfg (az_challenge a) (az_method a) cl); cbn [fst fail]; [cbn; congruence|].
+  destruct (String.eqb (az_challenge a) "" && String.eqb (az_method a) ""); cbn; [congruence|].
+  rewrite upd_neq by lia. congruence.
+Qed.
+
 (* under an existing key the PKCE table changes only when the code stored under that key is exchanged *)
 Theorem pkce_stable_step cfg s o k :
   k < next_key s ->
@@ -31,15 +44,8 @@ Proof.
     by (intros x ->; auto).
   destruct o; cbn [step]; try (left; reflexivity);
     try (new_flows_tac s fresh_grant_pkce ltac:(left; reflexivity); left; cbn in *; now rewrite FGfact).
-  - unfold authorize.
-    destruct (clients s (az_client a)) as [cl|]; [|auto].
-    destruct (negb (scopes_ok cfg cl (az_scopes a))); [auto|].
-    destruct (negb (aud_ok cfg (cl_aud cl) (az_aud a))); [auto|].
-    destruct (fresh_rid s) as [rid s1] eqn:E1. destruct (fresh_rid_spec _ _ _ E1) as [_ [_ [Hst1 [_ [Hk1 _]]]]].
-    destruct (mint s1 KCode rid) as [k0 s2] eqn:E2. destruct (mint_spec _ _ _ _ _ E2) as [Hk0 [_ [Hst2 _]]].
-    left. destruct (pkce_validate cfg (az_challenge a) (az_method a) cl); cbn [fst fail]; [cbn; congruence|].
-    destruct (String.eqb (az_challenge a) "" && String.eqb (az_method a) ""); cbn; [congruence|].
-    rewrite upd_neq by lia. congruence.
+  - unfold authorize. destruct (cf_par_enforced cfg); [auto|].
+    destruct (clients s (az_client a)) as [cl|]; [|auto]. left. now apply authorize_core_pkce_old.
   - unfold redeem.
     destruct auth as [c|]; [|auto].
     destruct (clients s c) as [cl|]; [|auto].
@@ -92,6 +98,26 @@ Proof.
     destruct (negb (Nat.eqb (r_client r) c)); [auto|]. left. cbn.
     destruct (revoke_access_tables (fst (revoke_refresh (st s) (r_id r))) (r_id r)) as [_ [_ [_ [_ Tp]]]].
     destruct (revoke_refresh_tables (st s) (r_id r)) as [_ [_ [_ [_ Tp']]]]. now rewrite Tp, Tp'.
+  - left. match goal with |- context [push cfg s ?x1 ?x2 ?x3 ?x4] => destruct (push_tables cfg s x1 x2 x3 x4) as [_ [_ [_ [_ [Hp _]]]]] end.
+    now rewrite Hp.
+  - left. unfold authorize_par.
+    destruct (key_of s uri) as [k0|]; [|reflexivity].
+    destruct (par (st s) k0) as [pr|]; [|reflexivity].
+    match goal with |- context [if ?c then _ else _] => destruct c; [reflexivity|] end.
+    rewrite authorize_core_pkce_old by assumption. reflexivity.
+  - left. match goal with |- context [device_authorize cfg s ?x1 ?x2 ?x3 ?x4] => destruct (device_authorize_tables cfg s x1 x2 x3 x4) as [_ [_ [_ [Hp _]]]] end.
+    now rewrite Hp.
+  - left. match goal with |- context [decide cfg s ?x1 ?x2 ?x3 ?x4 ?x5] => destruct (decide_tables cfg s x1 x2 x3 x4 x5) as [_ [_ [_ [Hp _]]]] end.
+    now rewrite Hp.
+  - left. unfold device_poll.
+    destruct auth as [c|]; [|reflexivity]. destruct (clients s c) as [cl|]; [|reflexivity].
+    destruct (negb (args_has (cl_grants cl) _)); [reflexivity|].
+    destruct (key_of s dev) as [k0|]; [|reflexivity].
+    destruct (device (st s) k0) as [[stt r]|] eqn:Ed; [|reflexivity].
+    repeat match goal with |- context [if ?c then fail s _ else _] => destruct c; [reflexivity|] end.
+    match goal with |- context [grant_tokens ?s2 ?stored ?w] =>
+      pose proof (grant_tokens_pkce s2 stored w) as GP; destruct (grant_tokens s2 stored w) as [s3 minted] end.
+    cbn in *. now rewrite GP.
 Qed.
 
 (* as long as the code is unused its PKCE session is the one written at authorization *)
@@ -105,55 +131,6 @@ Proof.
   destruct (pkce_stable_step cfg s o k Hk) as [E|[r0 [r1 [_ Hin]]]]; [exact E|].
   exfalso. destruct (code_inactive_run cfg h _ k r1 (Inv_step cfg s o I) Hin) as [r2 [H2 _]].
   unfold run in H2. congruence.
-Qed.
-
-(* the log only grows *)
-Lemma log_step_prefix cfg s o : exists l, log (fst (step cfg s o)) = (log s ++ l)%list.
-Proof.
-  destruct o; cbn [step]; try (exists []; rewrite app_nil_r; reflexivity);
-    try (new_flows_tac s fresh_grant_log ltac:(exists []; rewrite app_nil_r; reflexivity); exact FGfact).
-  - unfold authorize.
-    destruct (clients s (az_client a)) as [cl|]; [|exists []; rewrite app_nil_r; reflexivity].
-    destruct (negb (scopes_ok cfg cl (az_scopes a))); [exists []; rewrite app_nil_r; reflexivity|].
-    destruct (negb (aud_ok cfg (cl_aud cl) (az_aud a))); [exists []; rewrite app_nil_r; reflexivity|].
-    cbn [fresh_rid mint].
-    destruct (pkce_validate cfg (az_challenge a) (az_method a) cl); cbn [fst fail]; [exists []; rewrite app_nil_r; reflexivity|].
-    destruct (String.eqb (az_challenge a) "" && String.eqb (az_method a) ""); cbn; eauto.
-  - unfold redeem.
-    destruct auth as [c|]; [|exists []; rewrite app_nil_r; reflexivity].
-    destruct (clients s c) as [cl|]; [|exists []; rewrite app_nil_r; reflexivity].
-    destruct (negb (args_has (cl_grants cl) ["authorization_code"])); [exists []; rewrite app_nil_r; reflexivity|].
-    destruct (key_of s code) as [k0|]; [|exists []; rewrite app_nil_r; reflexivity].
-    destruct (codes (st s) k0) as [[[|] r0]|] eqn:Ec; [| exists []; rewrite app_nil_r; reflexivity |exists []; rewrite app_nil_r; reflexivity].
-    destruct (p_tampered code); [exists []; rewrite app_nil_r; reflexivity|].
-    destruct (negb (Nat.eqb (r_client r0) c)); [exists []; rewrite app_nil_r; reflexivity|].
-    destruct (negb (String.eqb (r_redirect r0) "") && negb (String.eqb (r_redirect r0) redirect)); [exists []; rewrite app_nil_r; reflexivity|].
-    assert (H1 : log (fst (pkce_token cfg s cl (Some k0) verifier verifier_s256)) = log s)
-      by (destruct (pkce_token_state cfg s cl (Some k0) verifier verifier_s256) as [->|[k1 ->]]; reflexivity).
-    destruct (pkce_token cfg s cl (Some k0) verifier verifier_s256) as [s1' [e0|]]; cbn [fst] in *; [exists []; rewrite app_nil_r; assumption|].
-    destruct (expired _ _ _ _); [exists []; rewrite app_nil_r; assumption|].
-    unfold grant_tokens, mint. destruct (can_refresh _ _ _); cbn; rewrite H1; eauto.
-  - unfold refresh_flow.
-    destruct auth as [c|]; [|exists []; rewrite app_nil_r; reflexivity].
-    destruct (clients s c) as [cl|]; [|exists []; rewrite app_nil_r; reflexivity].
-    destruct (negb (args_has (cl_grants cl) ["refresh_token"])); [exists []; rewrite app_nil_r; reflexivity|].
-    destruct (key_of s tok) as [k0|]; cbn [find]; [|exists []; rewrite app_nil_r; reflexivity].
-    destruct (refresh (st s) k0) as [[[|] r0]|] eqn:Er; [| exists []; rewrite app_nil_r; reflexivity |exists []; rewrite app_nil_r; reflexivity].
-    repeat match goal with |- context [if ?c then _ else _] => destruct c; [exists []; rewrite app_nil_r; reflexivity|] end.
-    destruct (rotate_refresh (st s) (r_id r0)) as [st1 [e0|]]; [exists []; rewrite app_nil_r; reflexivity|].
-    unfold grant_tokens, mint. cbn. eauto.
-  - unfold revoke.
-    destruct auth as [c|]; [|exists []; rewrite app_nil_r; reflexivity].
-    destruct (clients s c); [|exists []; rewrite app_nil_r; reflexivity].
-    destruct (revoke_lookup s (key_of s tok) h) as [r0|]; [|exists []; rewrite app_nil_r; reflexivity].
-    destruct (negb (Nat.eqb (r_client r0) c)); exists []; rewrite app_nil_r; reflexivity.
-Qed.
-
-Lemma log_run_nth cfg h : forall s i e, nth_error (log s) i = Some e -> nth_error (log (run cfg s h)) i = Some e.
-Proof.
-  unfold run. induction h as [|o h IH]; intros s i e Hn; cbn [fold_left]; [assumption|].
-  apply IH. destruct (log_step_prefix cfg s o) as [l ->].
-  rewrite nth_error_app1; [assumption|]. apply nth_error_Some. congruence.
 Qed.
 
 (* THE PROPERTY: a code issued for an authorization request that carried a challenge is redeemable — after
